@@ -47,7 +47,7 @@ Proof.
       * destruct (c_ordered c); auto.
       * destruct (c_ordered c) eqn:O0; auto. rewrite EO1 in OC; auto.
   - rewrite (arel_get_none _ _ _ _ HC G) in H2. inversion H1; inversion H2; subst; clear H1 H2.
-    assert (chanR cfgs ch (new_chan (h_nep h) (cf_ordered cf)) (mkSC (ss_nep s) [] [])).
+    assert (chanR cfgs ch (new_chan (h_nep h) (cf_ordered cf)) (mkSC (ss_nep s) [] [] 0 0 0)).
     { rewrite <- HE. apply chanR_new. congruence. }
     splits; auto.
     + unfold hubR; hub_simpl. splits; auto; try congruence. apply arel_set; auto.
@@ -173,6 +173,26 @@ Proof.
   intros h ch k o c ST. unfold add_prev. rewrite ST. destruct (get_chan h ch); auto.
 Qed.
 
+Lemma chanR_touch_mdead : forall cfgs i c sc m n, chanR cfgs i c sc -> chanR cfgs i c (touch_mdead m n sc).
+Proof. intros. unfold touch_mdead. destruct (0 <? m); auto. Qed.
+Lemma s_pos_touch : forall m n sc, s_pos (touch_mdead m n sc) = s_pos sc.
+Proof. intros. unfold touch_mdead. destruct (0 <? m); reflexivity. Qed.
+Lemma touch_mdead_fields : forall m n sc,
+  sc_epoch (touch_mdead m n sc) = sc_epoch sc /\ sc_map (touch_mdead m n sc) = sc_map sc /\
+  sc_log (touch_mdead m n sc) = sc_log sc /\ sc_keep (touch_mdead m n sc) = sc_keep sc.
+Proof. intros. unfold touch_mdead. destruct (0 <? m); auto. Qed.
+
+Lemma stream_add_R : forall (st : stream) (log : list pub) ep size keep mk,
+  st = mkStream (N.of_nat (length log)) ep (window size (lastk keep log)) ->
+  stream_add st mk size =
+  (mkStream (N.of_nat (length (log ++ [mk (N.of_nat (length log) + 1)]))) ep
+            (window size (lastk (S keep) (log ++ [mk (N.of_nat (length log) + 1)]))),
+   N.of_nat (length log) + 1).
+Proof.
+  intros st log ep size keep mk ->. unfold stream_add. simpl.
+  rewrite window_app, <- lastk_app. f_equal. f_equal. rewrite app_length. simpl. lia.
+Qed.
+
 Lemma publish_sim : forall cfgs h s ch k o h' u s' u',
   hubR cfgs h s -> publish cfgs h ch k o = (h', u) -> spec_publish cfgs s ch k o = (s', u') ->
   u = u' /\ hubR cfgs h' s'.
@@ -205,8 +225,8 @@ Proof.
     - simpl in H1, H2. inversion H1; inversion H2; subst; clear H1 H2. split; auto.
       destruct (po_refresh o && (0 <? cf_keyttl cf)); auto.
       apply hubR_touch_meta. apply hubR_track. apply hubR_set_both; auto.
-      rewrite N1, HN.
-      unfold chanR, ord_ok, cache_ok, set_entry_nodirty in *; simpl. rewrite EM in *.
+      rewrite N1, HN. apply chanR_touch_mdead.
+      unfold chanR, retained, ord_ok, cache_ok, set_entry_nodirty in *; simpl. rewrite EM in *.
       splits; auto; try tauto.
       + intros _. rewrite OC. symmetry. apply ordered_of_cfg; auto.
       + intro D. rewrite (sorted_keys_refresh _ _ _ _ e); auto.
@@ -225,34 +245,31 @@ Proof.
   destruct (has_stream (cf_mode cf)) eqn:HS.
   - (* stream-backed *)
     pose proof (resolve_size_pos _ _ _ CF HS) as SP.
-    unfold stream_add in H1. rewrite ES in H1. simpl in H1.
-    rewrite <- SZ in H1. rewrite window_app in H1.
-    assert (EL' : N.of_nat (length (sc_log sc)) + 1 = N.of_nat (length (sc_log sc ++ [mkPub k (N.of_nat (length (sc_log sc)) + 1) (po_data o) (po_tags o) false (po_score o)]))).
-    { rewrite app_length. simpl. lia. }
+    unfold retained in ES. rewrite <- SZ in H1.
+    rewrite (stream_add_R _ _ _ _ _ _ ES) in H1.
+    set (p := mkPub k (N.of_nat (length (sc_log sc)) + 1) (po_data o) (po_tags o) false (po_score o)) in *.
+    assert (EL' : N.of_nat (length (sc_log sc ++ [p])) = N.of_nat (length (sc_log sc)) + 1) by (rewrite app_length; simpl; lia).
+    assert (CRS : forall st' sd md, (st' <> [] -> c_ordered c = ordered_of cfgs ch) ->
+               chanR cfgs ch (set_state (set_stream c {| s_top := N.of_nat (length (sc_log sc)) + 1; s_epoch := sc_epoch sc;
+                                                        s_items := window (size_of cfgs ch) (lastk (S (sc_keep sc)) (sc_log sc ++ [p])) |}) st')
+                     (mkSC (sc_epoch sc) st' (sc_log sc ++ [p]) (S (sc_keep sc)) sd md)).
+    { intros st' sd md OR. unfold chanR, retained, set_stream, set_state, ord_ok, cache_ok in *; simpl. rewrite ?EL'.
+      splits; auto; try tauto; try discriminate; try (intro Z0; rewrite SZ in Z0; lia). }
     destruct (is_empty k) eqn:EK0.
     + simpl in H1, H2. inversion H1; inversion H2; subst; clear H1 H2.
-      unfold s_pos; simpl. rewrite <- EL'. split; auto.
+      rewrite s_pos_touch. unfold s_pos; simpl. rewrite EL'. split; auto.
       apply hubR_bcast. apply idem_save_sim. apply hubR_ret_touch. apply hubR_set_both; auto.
-      unfold chanR, set_stream, ord_ok, cache_ok in *; simpl. rewrite <- EL'. splits; auto; try tauto.
-      intro Z0. rewrite SZ in Z0. lia.
+      apply chanR_touch_mdead.
+      unfold chanR, retained, set_stream, ord_ok, cache_ok in *; simpl. rewrite ?EL'.
+      splits; auto; try tauto; try (intro Z0; rewrite SZ in Z0; lia).
     + simpl in H1, H2.
       assert (HD : (if 0 <? cf_keyttl cf then h_now h1 + cf_keyttl cf else 0) = deadline cf (ss_now s)).
       { unfold deadline. rewrite N1, HN. reflexivity. }
-      rewrite HD in H1.
-      assert (CR : chanR cfgs ch
-        (set_state (set_stream c {| s_top := N.of_nat (length (sc_log sc)) + 1; s_epoch := sc_epoch sc;
-             s_items := window (size_of cfgs ch) (sc_log sc ++ [mkPub k (N.of_nat (length (sc_log sc)) + 1) (po_data o) (po_tags o) false (po_score o)]) |})
-           (aset key_eqb (sc_map sc) k (mkEntry (mkPub k (N.of_nat (length (sc_log sc)) + 1) (po_data o) (po_tags o) false (po_score o)) (deadline cf (ss_now s)) ver vep)))
-        (mkSC (sc_epoch sc) (aset key_eqb (sc_map sc) k (mkEntry (mkPub k (N.of_nat (length (sc_log sc)) + 1) (po_data o) (po_tags o) false (po_score o)) (deadline cf (ss_now s)) ver vep))
-              (sc_log sc ++ [mkPub k (N.of_nat (length (sc_log sc)) + 1) (po_data o) (po_tags o) false (po_score o)]))).
-      { unfold chanR, set_stream, set_state, ord_ok, cache_ok in *; simpl. rewrite <- EL'. splits; auto; try tauto.
-        - intro Z0. rewrite SZ in Z0. lia.
-        - intros _. rewrite OC; auto.
-        - discriminate. }
-      rewrite EM in H1.
+      rewrite HD in H1. rewrite EM in H1.
       destruct (0 <? cf_keyttl cf) eqn:TT; inversion H1; inversion H2; subst; clear H1 H2;
-        unfold s_pos; simpl; rewrite <- EL'; (split; [reflexivity|]);
-        apply hubR_bcast; apply idem_save_sim; apply hubR_ret_touch; try apply hubR_track; apply hubR_set_both; auto.
+        rewrite s_pos_touch; unfold s_pos; simpl; rewrite EL'; (split; [reflexivity|]);
+        apply hubR_bcast; apply idem_save_sim; apply hubR_ret_touch; try apply hubR_track; apply hubR_set_both; auto;
+        apply chanR_touch_mdead; apply CRS; intros _; rewrite OC; auto.
   - (* no stream *)
     assert (LG : sc_log sc = []) by (apply EL; rewrite SZ; reflexivity).
     rewrite orb_false_l in H1. rewrite EP in H1.
@@ -265,8 +282,8 @@ Proof.
       { unfold deadline. rewrite N1, HN. reflexivity. }
       rewrite HD in H1. rewrite EM in H1.
       assert (CR : forall e, chanR cfgs ch (set_state c (aset key_eqb (sc_map sc) k e))
-                                   (mkSC (sc_epoch sc) (aset key_eqb (sc_map sc) k e) (sc_log sc))).
-      { intro e. unfold chanR, set_state, ord_ok, cache_ok in *; simpl. splits; auto; try tauto.
+                                   (mkSC (sc_epoch sc) (aset key_eqb (sc_map sc) k e) (sc_log sc) (sc_keep sc) (sc_sdead sc) (sc_mdead sc))).
+      { intro e. unfold chanR, retained, set_state, ord_ok, cache_ok in *; simpl. splits; auto; try tauto.
         - intros _. rewrite OC; auto.
         - discriminate. }
       destruct (0 <? cf_keyttl cf) eqn:TT; inversion H1; inversion H2; subst; clear H1 H2;
@@ -341,21 +358,24 @@ Proof.
   destruct EO as (EO1 & EO2). specialize (EO2 NN).
   destruct (has_stream (cf_mode cf)) eqn:HS.
   - pose proof (resolve_size_pos _ _ _ CF HS) as SP.
-    unfold stream_add in H1; simpl in H1; rewrite ES in H1; simpl in H1.
-    rewrite <- SZ in H1; rewrite window_app in H1.
+    unfold retained in ES. rewrite <- SZ in H1.
+    assert (ES' : c_stream (set_state c (adel key_eqb (sc_map sc) k)) =
+                  mkStream (N.of_nat (length (sc_log sc))) (sc_epoch sc) (window (size_of cfgs ch) (lastk (sc_keep sc) (sc_log sc)))) by exact ES.
+    rewrite (stream_add_R _ _ _ _ _ _ ES') in H1.
+    match type of H1 with context [stream_add_R] => idtac | _ => idtac end.
     inversion H1; inversion H2; subst; clear H1 H2.
-    unfold s_pos; simpl; rewrite app_length; simpl.
+    rewrite s_pos_touch. unfold s_pos; simpl; rewrite app_length; simpl.
     replace (N.of_nat (length (sc_log sc) + 1)) with (N.of_nat (length (sc_log sc)) + 1) by lia.
     split; [reflexivity|].
     apply hubR_bcast; apply idem_save_sim; try apply hubR_ret_touch; apply hubR_set_both; [apply hubR_set_exp; assumption|].
-    unfold chanR, set_stream, set_state, ord_ok, cache_ok in *; simpl.
+    apply chanR_touch_mdead.
+    unfold chanR, retained, set_stream, set_state, ord_ok, cache_ok in *; simpl.
     rewrite app_length; simpl.
     replace (N.of_nat (length (sc_log sc) + 1)) with (N.of_nat (length (sc_log sc)) + 1) by lia.
-    splits; auto; try tauto; try discriminate.
-    intro Z0. rewrite SZ in Z0. lia.
+    splits; auto; try tauto; try discriminate; try (intro Z0; rewrite SZ in Z0; lia).
   - inversion H1; inversion H2; subst; clear H1 H2.
     unfold s_pos; simpl. split; [reflexivity|].
     apply hubR_bcast; apply idem_save_sim; try apply hubR_ret_touch; apply hubR_set_both; [apply hubR_set_exp; assumption|].
-    unfold chanR, set_stream, set_state, ord_ok, cache_ok in *; simpl.
+    unfold chanR, retained, set_stream, set_state, ord_ok, cache_ok in *; simpl.
     splits; auto; try tauto; try discriminate.
 Qed.
